@@ -20,13 +20,23 @@ PLAN = {
  "C09_m3": [("C09", ["--only", "jq255s"])], "C09_m4": [("C09", ["--only", "jq255e"])],
  "C02_m1": [("C02", ["--only", "drv_ct_jq255e_ecdh"])], "C02_m2": [("C02", ["--only", "gf25519"])],
  "C02_m3": [("C02", ["--only", "p256"])], "C02_m4": [("C02", ["--only", "ed25519"])],
+ "C04_m1": [("C11", []), ("C04", [])], "C04_m2": [("C11", []), ("C04", [])],
+ "C04_m3": [("C11", []), ("C04", [])], "C04_m4": [("C11", []), ("C04", [])],
+ "C06_m1": [("C06", ["--only", "ristretto255"])], "C06_m2": [("C06", ["--only", "ed25519"])],
+ "C06_m3": [("C06", ["--only", "p256"])], "C06_m4": [("C06", ["--only", "ed448"])],
+ "C10_m1": [("C10", [])], "C10_m2": [("C10", [])], "C10_m3": [("C10", [])], "C10_m4": [("C10", [])],
+ "C12_m1": [("C12", [])], "C12_m2": [("C12", []), ("C01", ["--only", "gf448"])], "C12_m3": [("C12", []), ("C02", ["--only", "gf25519"])],
+ "C12_m4": [("C12", [])],
+ "C19_m1": [("C06", ["--only", "ed448"]), ("C19", ["--only", "ed448"])], "C19_m2": [("C06", ["--only", "secp256k1"]), ("C19", ["--only", "secp256k1"])],
+ "C19_m3": [("C15", []), ("C19", ["--only", "frost"])], "C19_m4": [("C08", ["--only", "p256"]), ("C19", ["--only", "p256"])],
 }
-only = sys.argv[1:] 
-rows = []
+only = sys.argv[1:]
 for sd in sorted(glob.glob(os.path.join(V, "seeded", "*_m*"))):
     sid = os.path.basename(sd)
     if only and sid not in only:
         continue
+    if only == ["--table"]:
+        break
     plan = PLAN.get(sid, [(sid.split("_")[0], [])])
     meta = json.load(open(os.path.join(sd, "meta.json")))
     det = []
@@ -45,10 +55,18 @@ for sd in sorted(glob.glob(os.path.join(V, "seeded", "*_m*"))):
             break
     meta["detected_by"] = det
     json.dump(meta, open(os.path.join(sd, "meta.json"), "w"), indent=1)
-    rows.append((sid, meta.get("file", ""), meta.get("function", ""), meta.get("what", "")[:110], det))
-if not only:
-    with open(os.path.join(V, "seeded", "MATRIX.md"), "w") as fh:
-        fh.write("# Seeded changes and the checks that catch them\n\n| id | file / function | change | result |\n|---|---|---|---|\n")
-        for sid, f, fn, what, det in rows:
-            res = "; ".join("%s %s: **%s**" % (d["check"], d["args"], d["verdict"]) for d in det)
-            fh.write("| %s | %s `%s` | %s | %s |\n" % (sid, f, fn, what.replace("|", "/"), res))
+# the table is always regenerated from the meta.json files
+rows = []
+for sd in sorted(glob.glob(os.path.join(V, "seeded", "*_m*"))):
+    meta = json.load(open(os.path.join(sd, "meta.json")))
+    rows.append((os.path.basename(sd), meta.get("file", ""), meta.get("function", ""), meta.get("what", "")[:140], meta.get("detected_by", [])))
+with open(os.path.join(V, "seeded", "MATRIX.md"), "w") as fh:
+    fh.write("# Seeded changes and the checks that catch them\n\nEach change compiles, passes the 120 existing tests, and breaks the property (demo.rs fails on it).\n"
+             "`VIOLATION` = the check exits 1 with a natively reproduced counterexample; `inconclusive only` = the check notices "
+             "(an obligation no longer closes) but cannot produce a witness, exit 0; `missed` = not noticed.\n\n"
+             "| id | file / function | change | result |\n|---|---|---|---|\n")
+    for sid, f, fn, what, det in rows:
+        res = "; ".join("%s %s: **%s**" % (d["check"], d["args"], d["verdict"]) for d in det) or "not run yet"
+        fh.write("| %s | %s `%s` | %s | %s |\n" % (sid, f, fn, what.replace("|", "/").replace("\n", " "), res))
+    caught = sum(1 for r in rows if any(d["verdict"] == "VIOLATION" for d in r[4]))
+    fh.write("\n%d of %d seeded changes are reported as violations by a quick-tier check.\n" % (caught, len(rows)))
